@@ -11,11 +11,26 @@
        exactly the lengths of valid layouts; shrinking the last region keeps all other pages in place
        and below the new length;
      - the close hand-off between Database::drop and the end of a live write transaction closes
-       exactly once for every interleaving.
+       exactly once for every interleaving;
+     - the shutdown model (Storage/Shutdown.v: Database::drop, TransactionGuard::drop, close_database,
+       TransactionalMemory::close, CheckedBackend::{close,drop} behind the I/O latch, reader-side
+       holders of the Arc<TransactionalMemory>, failing opens), for every interleaving of
+       open / begin_read / reader I/O / end of a reader handle / begin_write / writer I/O / end of the
+       writer / drop of the Database and for EVERY failure outcome (any answer to any storage call of
+       the close-time commit, of the shutdown header flush, of close() itself, and of every call before):
+       close() is called by the closing event -- the drop of the Database if no writer is live, else
+       the end of that writer -- not before, exactly once, whatever readers are alive; no call reaches
+       the backend after it (readers are refused with DatabaseClosed); the Drop net of CheckedBackend
+       never closes once a Database exists; a failing open closes exactly once (by the net); the
+       emitted backend trace is accepted by the verified contract monitor; the model refines the
+       hand-off automaton; the timing oracle used by the check accepts exactly the observations with
+       "0 closes before the closing event has returned, 1 from then on, nothing after", and the
+       model passes it for every history.
    What is validated per run (harness c20): that the traces redb produces are accepted by the
    extracted monitor, and that the layout functions of the crate agree with the model.          *)
 From Coq Require Import List NArith Bool.
 From RV Require Import Gen.Consts Storage.Contract Storage.ContractP Storage.Layout Storage.LayoutP.
+From RV Require Import Storage.Shutdown Storage.ShutdownP.
 Import ListNotations.
 Open Scope N_scope.
 
@@ -197,6 +212,177 @@ Example c20_nonvacuous_handoff :
 Proof.
   split; [|split]; [eexists | eexists | ]; vm_compute; repeat split; reflexivity.
 Qed.
+
+(* ---- shutdown: who calls close(), when, and what follows -- all interleavings, all failure outcomes ----
+   (Storage/Shutdown.v; `srun s_new evs = Some (s, l)`: the history `evs` is possible and leads to
+    state `s` having emitted the stream `l` of wrapper entries and backend calls) *)
+
+(* the Database is dropped and no write transaction is live  ==>  close() has been called, once --
+   whatever reader handles are alive, whatever failed in the close-time commit / the header flush /
+   close() itself / earlier in the session *)
+Theorem c20_shutdown_closed_by_closing_event : forall evs s l,
+  srun s_new evs = Some (s, l) ->
+  o_opened (s_o s) = true -> o_db (s_o s) = false -> o_writer (s_o s) = false ->
+  b_closes (s_b s) = 1 /\ b_closed (s_b s) = true /\ b_iof (s_b s) = true.
+Proof. exact closed_by_closing_event. Qed.
+
+(* ... and not earlier: no close() while the Database, or the write transaction deferring its close, lives *)
+Theorem c20_shutdown_not_closed_before : forall evs s l,
+  srun s_new evs = Some (s, l) ->
+  o_db (s_o s) = true \/ o_writer (s_o s) = true ->
+  b_closes (s_b s) = 0 /\ b_closed (s_b s) = false /\ b_gone (s_b s) = false.
+Proof. exact not_closed_before. Qed.
+
+(* the closing step itself, for every outcome: Drop for Database without a live writer ... *)
+Theorem c20_shutdown_drop_db_closes : forall evs s l commit flush cok s' l',
+  srun s_new evs = Some (s, l) -> o_writer (s_o s) = false ->
+  sstep s (SDropDb commit flush cok) = Some (s', l') ->
+  b_closes (s_b s) = 0 /\ b_closes (s_b s') = 1.
+Proof. exact drop_db_closes. Qed.
+
+(* ... or the end (commit / abort / drop) of the write transaction that was live at the drop *)
+Theorem c20_shutdown_end_of_deferring_writer_closes : forall evs s l commit flush cok,
+  srun s_new evs = Some (s, l) -> o_db (s_o s) = false -> o_writer (s_o s) = true ->
+  exists s' l', sstep s (SEndWrite commit flush cok) = Some (s', l') /\
+                b_closes (s_b s) = 0 /\ b_closes (s_b s') = 1.
+Proof. exact end_of_deferring_writer_closes. Qed.
+
+Theorem c20_shutdown_at_most_once_nothing_after : forall evs s l,
+  srun s_new evs = Some (s, l) ->
+  (b_closes (s_b s) = 0 \/ b_closes (s_b s) = 1) /\ b_after (s_b s) = 0.
+Proof. exact at_most_once_nothing_after. Qed.
+
+(* the emitted backend calls, judged by the verified monitor of this file: never a violation ... *)
+Theorem c20_shutdown_trace_safe : forall evs s l,
+  srun s_new evs = Some (s, l) -> prefix_okb false 0 (trace_of l) = true.
+Proof. exact emitted_trace_safe. Qed.
+
+(* ... and complete (exactly one close, as the last call) from the closing event on / after a failed open *)
+Theorem c20_shutdown_trace_complete : forall evs s l,
+  srun s_new evs = Some (s, l) ->
+  (o_opened (s_o s) = true /\ o_db (s_o s) = false /\ o_writer (s_o s) = false) \/
+  (o_opened (s_o s) = false /\ b_gone (s_b s) = true) ->
+  contract_okb false 0 (trace_of l) = true.
+Proof. exact emitted_trace_complete. Qed.
+
+(* a reader handle that outlives the close: its storage calls are refused, nothing reaches the backend *)
+Theorem c20_shutdown_readers_refused_after_close : forall evs s l cs s' l',
+  srun s_new evs = Some (s, l) -> b_closes (s_b s) = 1 ->
+  sstep s (SReadIo cs) = Some (s', l') ->
+  s' = s /\ trace_of l' = [] /\ b_iof (s_b s) = true /\ b_closed (s_b s) = true.
+Proof. exact readers_refused_after_close. Qed.
+
+(* once a Database exists the close is always the explicit one: `Drop for CheckedBackend` finds `closed` set *)
+Theorem c20_shutdown_net_never_closes_after_open : forall evs s l,
+  srun s_new evs = Some (s, l) -> o_opened (s_o s) = true ->
+  forall f c, In (LEnterDrop f c) l -> c = true.
+Proof. exact net_never_closes_after_open. Qed.
+
+(* an open that fails, at whatever point and for whatever reason: one close (by the net), nothing after,
+   nothing possible afterwards *)
+Theorem c20_open_failure_closes_once : forall cs cok s l,
+  sstep s_new (SOpen cs false cok) = Some (s, l) ->
+  b_closes (s_b s) = 1 /\ b_after (s_b s) = 0 /\ b_gone (s_b s) = true /\
+  contract_okb false 0 (trace_of l) = true /\ forall e, sstep s e = None.
+Proof. exact failed_open_closes_once. Qed.
+
+Theorem c20_open_success_not_closed : forall cs cok s l,
+  sstep s_new (SOpen cs true cok) = Some (s, l) ->
+  b_closes (s_b s) = 0 /\ o_db (s_o s) = true /\ nonet l.
+Proof. exact open_ok_not_closed. Qed.
+
+(* the shutdown model refines the hand-off automaton above (readers, I/O and failures are invisible to it) *)
+Theorem c20_shutdown_refines_handoff : forall evs s l e s' l',
+  srun s_new evs = Some (s, l) -> o_opened (s_o s) = true ->
+  sstep s e = Some (s', l') ->
+  match h_ev e with
+  | Some he => hstep (h_of s) he = Some (h_of s')
+  | None => h_of s' = h_of s
+  end.
+Proof. exact refines_handoff. Qed.
+
+(* the timing oracle of the check (S3), applied to (events of an API step, close() calls seen so far,
+   calls seen after a close) per API step: what it expects ... *)
+Theorem c20_timing_expected_meaning : forall evs t,
+  trun t_new evs = Some t ->
+  (expected_closes t = 0 \/ expected_closes t = 1) /\
+  (expected_closes t = 1 <->
+     t_failed t = true \/
+     (t_opened t = true /\ h_db_alive (t_h t) = false /\ h_live_write (t_h t) = false)).
+Proof. exact expected_closes_meaning. Qed.
+
+(* ... it accepts exactly the observations that show the expected count after EVERY step and no call after close *)
+Theorem c20_timing_check_sound : forall steps,
+  timing_okb steps = true ->
+  forall pre evs c a post, steps = pre ++ (evs, (c, a)) :: post ->
+  exists t, trun t_new (flat pre ++ evs) = Some t /\ c = expected_closes t /\ a = 0.
+Proof. exact timing_check_sound. Qed.
+
+Theorem c20_timing_check_complete : forall steps,
+  (forall pre evs c a post, steps = pre ++ (evs, (c, a)) :: post ->
+     exists t, trun t_new (flat pre ++ evs) = Some t /\ c = expected_closes t /\ a = 0) ->
+  timing_okb steps = true.
+Proof. exact timing_check_complete. Qed.
+
+(* ... and the model passes it for every history, every split into API steps, every failure outcome *)
+Theorem c20_shutdown_model_satisfies_timing : forall steps obs logs,
+  model_steps s_new steps = Some (obs, logs) -> timing_okb obs = true.
+Proof. exact model_satisfies_timing. Qed.
+
+(* non-vacuity.  (1) a commit fails and latches the I/O error; the Database is then dropped while a
+   ReadTransaction and a table of it are alive; the close-time commit is refused, the header flush is
+   skipped, close() itself reports an error: still closed at the drop, the reader is refused, the
+   CheckedBackend goes away with the last reader without a second close. *)
+Example c20_nonvacuous_shutdown_latched_failure_readers_alive :
+  let evs := [SOpen [(KOp, true); (KOp, true)] true true; SBeginRead; SBeginRead;
+              SBeginWrite; SWriteIo [(KOp, true); (KOp, false); (KOp, true)]; SEndWrite [] [] true;
+              SDropDb [(KOp, true)] [(KOp, true)] false;
+              SReadIo [(KOp, true)]; SEndRead true; SEndRead true] in
+  exists s, srun s_new evs = Some (s,
+      [LEnterOp KOp false false; LBack true; LEnterOp KOp false false; LBack true;
+       LEnterOp KOp false false; LBack true; LEnterOp KOp false false; LBack false;
+       LEnterOp KOp true false;
+       LEnterOp KOp true false; LEnterOp KOp true false; LEnterClose true false; LBackClose false;
+       LEnterOp KOp true true; LEnterDrop true true]) /\
+    b_closes (s_b s) = 1 /\ b_after (s_b s) = 0 /\ b_gone (s_b s) = true /\ s_quiescent s = true.
+Proof. eexists. vm_compute. repeat split; reflexivity. Qed.
+
+(* (2) Database dropped under a live writer with a reader alive; the writer's commit fails, the
+   close-time commit is refused: closed exactly when the writer ends, the reader still alive. *)
+Example c20_nonvacuous_shutdown_deferred_close_failing_commit :
+  let pre := [SOpen [] true true; SBeginRead; SBeginWrite; SDropDb [] [] true;
+              SWriteIo [(KOp, true); (KOp, false)]] in
+  (exists s l, srun s_new pre = Some (s, l) /\ b_closes (s_b s) = 0 /\ o_readers (s_o s) = 1) /\
+  (exists s l, srun s_new (pre ++ [SEndWrite [(KOp, true)] [] true]) = Some (s, l) /\
+               b_closes (s_b s) = 1 /\ o_readers (s_o s) = 1 /\ b_gone (s_b s) = false).
+Proof. split; eexists; eexists; vm_compute; repeat split; reflexivity. Qed.
+
+(* (3) a failing open; (4) events the API excludes *)
+Example c20_nonvacuous_open_failure :
+  exists s, sstep s_new (SOpen [(KOp, true); (KOp, false); (KOp, true)] false true) = Some (s,
+      [LEnterOp KOp false false; LBack true; LEnterOp KOp false false; LBack false;
+       LEnterOp KOp true false; LEnterDrop true false; LBackClose true]) /\ b_closes (s_b s) = 1.
+Proof. eexists. vm_compute. split; reflexivity. Qed.
+
+Example c20_nonvacuous_shutdown_excluded :
+  srun s_new [SOpen [] true true; SDropDb [] [] true; SBeginWrite] = None /\
+  srun s_new [SOpen [] true true; SDropDb [] [] true; SBeginRead] = None /\
+  srun s_new [SBeginRead] = None.
+Proof. vm_compute. repeat split; reflexivity. Qed.
+
+(* (5) the oracle on observations: a correct one is accepted; the close skipped at the drop and made
+   only when the last reader goes (what a missing explicit close behind the Drop net looks like) is
+   rejected at the step of the drop; so is a close before the drop *)
+Example c20_nonvacuous_timing_oracle :
+  let ev := [[SOpen [] true true]; [SBeginRead]; [SDropDb [] [(KOp, false)] true]; [SEndRead true]] in
+  timing_check t_new (combine ev [(0, 0); (0, 0); (1, 0); (1, 0)]) 0 = TOk /\
+  timing_check t_new (combine ev [(0, 0); (0, 0); (0, 0); (1, 0)]) 0 = TBad 2 /\
+  timing_check t_new (combine ev [(0, 0); (1, 0); (1, 0); (1, 0)]) 0 = TBad 1 /\
+  timing_check t_new (combine ev [(0, 0); (0, 0); (1, 0); (1, 1)]) 0 = TBad 3 /\
+  timing_check t_new [([SOpen [] false true], (1, 0))] 0 = TOk /\
+  timing_check t_new [([SOpen [] false true], (0, 0))] 0 = TBad 0 /\
+  timing_check t_new [([SBeginWrite], (0, 0))] 0 = TMalformed 0.
+Proof. vm_compute. repeat split; reflexivity. Qed.
 
 (* ------------------------------------------------------------------------------------------------
    Tie to the code (Gen/Fns.v is regenerated from layout.rs / base.rs / header.rs on every run by
